@@ -11,7 +11,8 @@ import time
 from . import tlaval, tlc, vocab
 from .tlc import MachineryError, VERIF
 
-EVID = os.path.join(VERIF, 'evidence')
+EVID = os.environ.get('PANE_VERIF_EVIDENCE') or os.path.join(VERIF, 'evidence')    # (self-validation runs write elsewhere)
+REPLAYS = os.environ.get('PANE_VERIF_REPLAYS') or os.path.join(VERIF, 'replays')
 
 
 def seed() -> int:
@@ -170,7 +171,7 @@ class Report:
         self.skipped = 0
         self.findings = load_findings()
         import glob
-        for old in glob.glob(os.path.join(VERIF, 'replays', f'{prop}-*.json')):
+        for old in glob.glob(os.path.join(REPLAYS, f'{prop}-*.json')):
             os.remove(old)
         self.exhaustive = False
         self.notes: list = []
@@ -197,7 +198,7 @@ class Report:
             print(f"KNOWN-FINDING: property={self.prop} {c['what']} [{fid}; seen {c['count']}x]")
         if self.violations:
             rc = 1
-            rdir = os.path.join(VERIF, 'replays')
+            rdir = REPLAYS
             os.makedirs(rdir, exist_ok=True)
             seen = set()
             n = 0
